@@ -100,7 +100,6 @@ inductive Out
   | mixed                         -- TransactionError('An attempt to mix objects belonging to different transactions')
   | dbRequired                    -- TransactionError('db_session is required when working with the database')
   | typeError                     -- TypeError / AttributeError on a malformed state (never produced from states left by `close`)
-  | ranSql                        -- the call went through `database._exec_sql` under the thread's CURRENT session and returned a result
   | live                          -- all guards passed with a live cache: continues in the session code (not modelled here)
   deriving DecidableEq, Repr, Inhabited
 
@@ -270,8 +269,8 @@ def toDictLoop (i : Nat) : List Attr → World → List (Nat × Rv) → Res
 
 /-- `database._exec_sql` reached from a method that did not check the object's own session:
     `Database._get_cache` raises without an ambient db_session, otherwise the statement runs in the CURRENT session -/
-def execSql (env : Env) (w : World) (onOk : World) : Res :=
-  if env.ambient then ⟨onOk, .ranSql, [.select]⟩ else ⟨w, .dbRequired, []⟩
+def execSql (env : Env) (w : World) (onOk : World) (v : Rv) : Res :=
+  if env.ambient then ⟨onOk, .value v, [.select]⟩ else ⟨w, .dbRequired, []⟩
 
 /-! ### the step function -/
 
@@ -348,7 +347,7 @@ def step (env : Env) (w : World) (i : Nat) (op : Op) : Res :=
             | none => sd
           else sd
         let sd3 : SetData := if sd2.items.isEmpty then { sd2 with full := true, absent := none, count := some 0 } else sd2
-        execSql env w1 (w1.setObj i { o with vals := some (setSlot vs a.id (.coll sd3)) })
+        execSql env w1 (w1.setObj i { o with vals := some (setSlot vs a.id (.coll sd3)) }) (.bool sd2.items.isEmpty)
       match lookup vs a.id with
       | some (.coll sd) =>
         if sd.full then ⟨w, .value (.bool sd.items.isEmpty), []⟩ else
